@@ -1074,6 +1074,57 @@ func c13ValidityComponents(p *core.Program, r *core.Report) {
 	}
 	r.Count("date_validity_checks", sites)
 	r.Require("date_validity_checks", sites, 1)
+	c13TimeBounds(p, r)
+}
+
+// c13TimeBounds: what the formatter can write the parser must accept: where a function of envs builds a time of day
+// from parsed numbers (dates.NewTimeOfDay(h, m, s, n)) under range tests of those numbers, the tests let every value
+// through that a rendering can contain — hours up to 23, minutes and seconds up to 59.
+func c13TimeBounds(p *core.Program, r *core.Report) {
+	maxOf := []int64{23, 59, 59}
+	name := []string{"hour", "minute", "second"}
+	n := 0
+	for _, fn := range p.ModuleFunctions() {
+		if core.RelPkg(core.FuncPkgPath(fn)) != "envs" {
+			continue
+		}
+		for _, cs := range core.Calls(fn, false) {
+			o := core.CalleeObj(cs.Common())
+			if o == nil || !strings.HasSuffix(core.ObjName(o), "dates.NewTimeOfDay") || len(cs.Common().Args) < 3 {
+				continue
+			}
+			for i := 0; i < 3; i++ {
+				v := core.StripConv(cs.Common().Args[i])
+				if _, isConst := v.(*ssa.Const); isConst {
+					continue
+				}
+				for _, ce := range core.ControllingConds(cs.Instr.Block()) {
+					bo, ok := ce.Cond.(*ssa.BinOp)
+					if !ok || core.StripConv(bo.X) != v {
+						continue
+					}
+					k, isC := core.ConstInt(bo.Y)
+					if !isC {
+						continue
+					}
+					// the largest value the edge taken lets through (upper bounds only)
+					var upTo int64 = -1
+					switch {
+					case bo.Op == token.GTR && !ce.Taken, bo.Op == token.LEQ && ce.Taken:
+						upTo = k
+					case bo.Op == token.GEQ && !ce.Taken, bo.Op == token.LSS && ce.Taken:
+						upTo = k - 1
+					default:
+						continue
+					}
+					n++
+					r.Check(upTo >= maxOf[i], "R4", fmt.Sprintf("%s/%s-accepted-up-to-%d", fn.Name(), name[i], maxOf[i]), p.Pos(bo.Pos()), fmt.Sprintf("values up to %d pass", upTo),
+						fmt.Sprintf("%s accepts the %s of a time only up to %d: a rendered time can contain %d, so that rendering is not read back", fn.Name(), name[i], upTo, maxOf[i]))
+				}
+			}
+		}
+	}
+	r.Count("time_component_upper_bounds", n)
 }
 
 // ---------------------------------------------------------------------------------------------- R5
